@@ -1,3 +1,4 @@
+import EdpVerif.Generated.Misc
 import EdpVerif.Lemmas.Handshake
 /-!
 # C04 — handshake: connected only after cookie proof, in protocol order; failure is final; flags are the intersection; layouts
@@ -593,5 +594,16 @@ theorem C04_mandatory_flags :
     flagMandatory = (Spec.Handshake.mandatoryOtp26.map fun n => (Spec.Handshake.protocolFlag n).getD 0).foldl (· ||| ·) 0 ∧
     flagDefault &&& flagMandatory = flagMandatory ∧
     flagDefaultHidden = flagDefault &&& (18446744073709551615 - 1) ∧ flagDefault &&& 1 = 1 := by decide
+
+/-- The state the handshake model carries IS the state the code keeps (regenerated from the source on every run): the nine
+fields of `HandshakeStateMachine` — `state` ↦ `Machine.state`, `cookie`/`flags`/`creation`/`local_node_name` ↦ the
+configuration, `our_challenge`/`their_challenge`/`negotiated_flags` ↦ the three optional components; `remote_node_name`
+is never read — and no process-wide state in the modelled files. A new field or a static is state this model does not know. -/
+theorem C04_state_is_the_sources_state :
+    Edp.Gen.STRUCT_HandshakeStateMachine =
+      ["state:ConnectionState", "local_node_name:String", "remote_node_name:String", "cookie:String",
+       "flags:DistributionFlags", "creation:Creation", "our_challenge:Option<u32>", "their_challenge:Option<u32>",
+       "negotiated_flags:Option<DistributionFlags>"]
+    ∧ Edp.Gen.PROCESS_WIDE_STATE = [] := by decide
 
 end Edp.Props.C04
